@@ -1294,3 +1294,7 @@ mod test {
         );
     }
 }
+
+#[cfg(kani)]
+#[path = "/verif/harness/app_parse_parser.rs"]
+mod verif_harness;
